@@ -27,7 +27,14 @@ def rust_f64_display(bits):
         return "inf" if f > 0 else "-inf"
     if f == 0:
         return "-0" if bits >> 63 else "0"
-    s = format(decimal.Decimal(repr(f)), "f")
+    # shortest round-trip digits; when two candidates of that length are equally close Rust
+    # (Grisu with Dragon fallback) rounds the tie up in magnitude, CPython's repr to even
+    d = decimal.Decimal(repr(f))
+    n = len(d.as_tuple().digits)
+    up = decimal.Context(prec=n, rounding=decimal.ROUND_HALF_UP).create_decimal(decimal.Decimal(f))
+    if up != d and float(str(up)) == f:
+        d = up
+    s = format(d, "f")
     if "." in s:
         s = s.rstrip("0").rstrip(".")
     return s
